@@ -124,7 +124,7 @@ class Check(PropertyCheck):
                    "version": rng.pick(["HTTP/1.1", "HTTP/1.1", "HTTP/1.0", "HTTP/2.0"]),
                    "authority": int(rng.chance(0.2)),
                    "preserve": int(rng.chance(0.4)), "peer": rng.pick([None, "1.2.3.4", "::1", "address", "example.com"]),
-                   "set_content": int(rng.chance(0.85))}
+                   "set_content": int(rng.chance(0.85)), "exe": int(rng.chance(0.1))}
 
     # ------------------------------------------------------------------ implementation
     def setup(self, tier):
@@ -166,17 +166,43 @@ class Check(PropertyCheck):
         f.server_conn.peername = (case["peer"], 22) if case["peer"] else None
         return f
 
-    def _shell(self, shell, script: bytes, want_stdin):
+    # exe mode: `<shell> script` with the stub executables first on PATH (one exec of the shell + one of the stub)
+    RUNNER_EXE = ('while read -r shell script out stdin; do '
+                  'if [ "$stdin" = - ]; then unset C48_STDIN; else C48_STDIN="$stdin"; export C48_STDIN; fi; '
+                  '"$shell" "$script" >"$out.o" 2>"$out.e" </dev/null; echo $?; done')
+    # fn mode: the script is sourced in a subshell of a persistent shell under test, curl/http are shell functions with
+    # the stub's behaviour (no exec at all: process creation costs ~50 ms on the loaded box); PATH still holds only stubs
+    STUB_FN = ('%s() { printf "%%s\\000" "$#" %s; for a in "$@"; do printf "%%s\\000" "$a"; done; '
+               'if [ -n "$C48_STDIN" ]; then /bin/cat > "$C48_STDIN"; fi; }; ')
+    RUNNER_FN = (STUB_FN % ("curl", "curl") + STUB_FN % ("http", "http") +
+                 'while read -r shell script out stdin; do '
+                 '( if [ "$stdin" = - ]; then unset C48_STDIN; else C48_STDIN="$stdin"; fi; . "$script" ) '
+                 '>"$out.o" 2>"$out.e" </dev/null; echo $?; done')
+    _runners = {}
+
+    def _run(self, shell, script_path, out, stdin_path, mode):
+        key = (os.getpid(), mode, shell if mode == "fn" else "-")
+        pr = Check._runners.get(key)
+        if pr is None or pr.poll() is not None:
+            argv = ["/bin/sh", "-c", self.RUNNER_EXE] if mode == "exe" else [SHELLS[shell], "-c", self.RUNNER_FN]
+            pr = subprocess.Popen(argv, env={"PATH": BIN, "LC_ALL": "C.UTF-8"},
+                                  stdin=subprocess.PIPE, stdout=subprocess.PIPE, stderr=subprocess.DEVNULL)
+            Check._runners[key] = pr
+        pr.stdin.write(("%s %s %s %s\n" % (SHELLS[shell], script_path, out, stdin_path or "-")).encode()); pr.stdin.flush()
+        line = pr.stdout.readline()
+        return int(line.strip() or b"-1")
+
+    def _shell(self, shell, script: bytes, want_stdin, mode="fn"):
         sp = os.path.join(self.tmp, "script-%d" % os.getpid())
         with open(sp, "wb") as fh: fh.write(script)
-        env = {"PATH": BIN, "LC_ALL": "C.UTF-8"}
-        stdin_path = os.path.join(self.tmp, "stdin-%d" % os.getpid())
+        out = os.path.join(self.tmp, "out-%d" % os.getpid())
+        stdin_path = os.path.join(self.tmp, "stdin-%d" % os.getpid()) if want_stdin else None
         if want_stdin:
-            env["C48_STDIN"] = stdin_path
             try: os.unlink(stdin_path)
             except OSError: pass
-        r = subprocess.run([SHELLS[shell], sp], env=env, stdin=subprocess.DEVNULL, capture_output=True, timeout=20)
-        inv, data, pos = [], r.stdout, 0
+        rc = self._run(shell, sp, out, stdin_path, mode)
+        data = open(out + ".o", "rb").read(); err = open(out + ".e", "rb").read()
+        inv, pos = [], 0
         parts = data.split(b"\x00")
         if parts and parts[-1] == b"": parts.pop()
         ok = True
@@ -188,7 +214,7 @@ class Check(PropertyCheck):
         sin = None
         if want_stdin and os.path.exists(stdin_path):
             sin = hx(open(stdin_path, "rb").read())
-        return {"rc": r.returncode, "stderr": r.stderr.decode("latin-1")[:200], "inv": inv, "parse_ok": ok, "stdin": sin}
+        return {"rc": rc, "stderr": err.decode("latin-1")[:200], "inv": inv, "parse_ok": ok, "stdin": sin, "mode": mode}
 
     def impl(self, case):
         from mitmproxy.addons import export
@@ -208,6 +234,7 @@ class Check(PropertyCheck):
         obs["pretty_url_hex"] = hx(rq.pretty_url.encode("utf-8", "surrogateescape"))
         obs["pretty_host_hex"] = hx(rq.pretty_host.encode("utf-8", "surrogateescape"))
         obs["orig_url_hex"] = hx(f.request.pretty_url.encode("utf-8", "surrogateescape"))
+        obs["orig_plain_url_hex"] = hx(f.request.url.encode("utf-8", "surrogateescape"))
         # the request's method as mitmproxy's data model defines it (Request.method upper-cases the wire bytes)
         obs["api_method_hex"] = hx(f.request.method.encode("utf-8", "surrogateescape"))
         clean = export.cleanup_request(f)
@@ -224,7 +251,7 @@ class Check(PropertyCheck):
             has_body = bool(rq.content)
             for sh in SHELLS:
                 if fmt == "httpie" and sh == "sh" and has_body: continue       # `<<<` is not POSIX
-                o[sh] = self._shell(sh, script, fmt == "httpie")
+                o[sh] = self._shell(sh, script, fmt == "httpie", "exe" if case.get("exe") else "fn")
             obs[fmt] = o
         try:
             raw = export.formats["raw_request"](f)
@@ -280,7 +307,9 @@ class Check(PropertyCheck):
     def oracle(self, case, obs):
         fails = []
         method = unhx(obs["api_method_hex"])
-        url = unhx(obs["orig_url_hex"])
+        # "that URL": the request's pretty_url (Host-header view) or its url (connection view); they differ only when the
+        # Host header carries no port while the connection uses a non-default one
+        urls = [unhx(obs["orig_url_hex"]), unhx(obs["orig_plain_url_hex"])]
         exp_h = self._expected_headers(case)
         has_content = bool(obs["clean_content_hex"] and unhx(obs["clean_content_hex"]))
         for fmt in ("curl", "httpie"):
@@ -293,7 +322,8 @@ class Check(PropertyCheck):
                 if sh not in o: continue
                 r = o[sh]
                 tag = f"{fmt}/{sh}"
-                prog = os.path.join(BIN, "curl" if fmt == "curl" else "http").encode()
+                prog = ("curl" if fmt == "curl" else "http").encode()
+                if r["mode"] == "exe": prog = os.path.join(BIN.encode(), prog)
                 if not r["parse_ok"] or len(r["inv"]) != 1 or r["rc"] != 0 or r["stderr"]:
                     fails.append(f"{tag}: not exactly one clean execution of the stub (invocations={len(r['inv'])} rc={r['rc']} stderr={r['stderr']!r})")
                     continue
@@ -304,7 +334,7 @@ class Check(PropertyCheck):
                     c = self._curl_semantics(argv)
                     if c["unknown"]: fails.append(f"{tag}: curl would read {c['unknown'][0]!r} as an option")
                     if c["eff_method"] != method: fails.append(f"{tag}: method sent by curl is {c['eff_method']!r}, request has {method!r}")
-                    if c["urls"] != [url]: fails.append(f"{tag}: url arguments {c['urls']!r} != [{url!r}]")
+                    if len(c["urls"]) != 1 or c["urls"][0] not in urls: fails.append(f"{tag}: url arguments {c['urls']!r} != one of {urls!r}")
                     want_H = [k + b": " + v for k, v in exp_h if k.lower() != b"accept-encoding"]
                     if method != b"GET" and not has_content: want_H.append(b"content-length: 0")
                     if c["H"] != want_H: fails.append(f"{tag}: -H lines {c['H']!r} != {want_H!r}")
@@ -323,7 +353,7 @@ class Check(PropertyCheck):
                     elif not has_content and c["data"] is not None:
                         fails.append(f"{tag}: -d present although the request has no content")
                 else:
-                    want = [prog, method, url] + [k + b": " + v for k, v in exp_h]
+                    want = [prog, method, argv[2] if len(argv) > 2 and argv[2] in urls else urls[0]] + [k + b": " + v for k, v in exp_h]
                     if argv != want: fails.append(f"{tag}: argv {argv[1:]!r} != {want[1:]!r}")
         # raw export
         if self._wire_safe(case, obs):
@@ -424,9 +454,10 @@ class Check(PropertyCheck):
     @staticmethod
     def _show_exec(r, prog_name):
         if r is None: return None
-        if not r["parse_ok"] or len(r["inv"]) != 1 or r["rc"] != 0 or r["stderr"]: return "abnormal"
+        # anything but one clean execution is outside what Model.Sh interprets (its answer is then "unmodelled")
+        if not r["parse_ok"] or len(r["inv"]) != 1 or r["rc"] != 0 or r["stderr"]: return "unmodelled"
         argv = [unhx(x) for x in r["inv"][0]]
-        if os.path.basename(argv[0]) != prog_name.encode() or os.path.dirname(argv[0]) != BIN.encode(): return "abnormal"
+        if argv[0] != (os.path.join(BIN, prog_name).encode() if r["mode"] == "exe" else prog_name.encode()): return "unmodelled"
         return "ok:%s:%s" % (r["stdin"] if r["stdin"] not in (None, "-") else "none", ",".join([hx(prog_name.encode())] + r["inv"][0][1:]))
 
     def impl_view(self, case, obs):
